@@ -373,8 +373,58 @@ fn writer_case<T: ZooVal + Serialize + Deserialize + WithSchema>(kind: Kind, ver
     if plan.benign() && res.is_err() {
         out.push(format!("!C08 chunking-changes-save-result {} got={}", ctx, res_s));
     }
+    // a successful save has handed everything on: the last thing it did to the writer was a flush (behind a
+    // buffering writer, what is written after the last flush is stored only if nothing goes wrong later, and then
+    // nobody is told)
+    if res.is_ok() && w.ops.iter().any(|o| o.starts_with('w') && o != "w0") && w.ops.last().map(|o| o != "f").unwrap_or(false) {
+        out.push(format!("!C08 success-without-final-flush {} last-ops={}", ctx, w.ops.iter().rev().take(3).cloned().collect::<Vec<_>>().join(",")));
+    }
     if w.fired && res.is_ok() && plan.fail_at.map(|(_, _, p)| p).unwrap_or(true) {
         out.push(format!("!C08 write-fault-swallowed {} accepted={} of {}", ctx, w.accepted.len(), good.len()));
+    }
+}
+
+/// the header-less entry point `Serializer::bare_serialize` (what savefile-abi and user code with their own framing use)
+fn bare_entry_case<T: ZooVal + Serialize>(name: &str, ver: u32, x: &T, out: &mut Vec<String>) {
+    let run = |plan: Plan| -> (Result<(), String>, FaultyWriter) {
+        let mut w = FaultyWriter::new(plan);
+        let r = catch_unwind(AssertUnwindSafe(|| Serializer::bare_serialize(&mut w, ver, x)));
+        let r = match r {
+            Ok(Ok(())) => Ok(()),
+            Ok(Err(e)) => Err(format!("(err {})", err_class(&e))),
+            Err(_) => Err(format!("(panic {})", panic_class(&last_panic()))),
+        };
+        (r, w)
+    };
+    let all = Plan { chunk: Chunk::All, interrupt8: 0, fail_at: None, zero_at: None, flush_fail: None, seed: 0 };
+    let (r0, w0) = run(all.clone());
+    out.push("#stat w-bare-entry 1".into());
+    if r0.is_err() {
+        return; // (a value that cannot be written at this version)
+    }
+    if w0.accepted.is_empty() {
+        return;
+    }
+    if w0.ops.last().map(|o| o != "f").unwrap_or(true) {
+        out.push(format!("!C08 success-without-final-flush kind=bare type={} last-ops={}", name, w0.ops.iter().rev().take(3).cloned().collect::<Vec<_>>().join(",")));
+    }
+    // a writer that takes every byte and fails when asked to hand them on
+    let (r1, w1) = run(Plan { flush_fail: Some(w0.flushes.max(1)), ..all.clone() });
+    if r1.is_ok() {
+        out.push(format!("!C08 write-fault-swallowed kind=bare type={} plan=flush-fails flushes-seen={}", name, w1.flushes));
+    }
+    if let Err(e) = &r1 {
+        if e.starts_with("(panic") {
+            out.push(format!("!C08 write-fault-panic kind=bare type={} got={}", name, e));
+        }
+    }
+    // a write failure half way
+    let (r2, w2) = run(Plan { fail_at: Some((w0.accepted.len() / 2, ErrorKind::Other, true)), ..all });
+    if r2.is_ok() {
+        out.push(format!("!C08 write-fault-swallowed kind=bare type={} plan=fail-at-half accepted={} of {}", name, w2.accepted.len(), w0.accepted.len()));
+    }
+    if !is_prefix(&w2.accepted, &w0.accepted) {
+        out.push(format!("!C08 accepted-not-prefix kind=bare type={}", name));
     }
 }
 
@@ -382,6 +432,7 @@ pub fn iofault_case<T: ZooVal + Serialize + Deserialize + WithSchema>(name: &str
     let mut out = Vec::new();
     let x = T::gen(r, sz);
     let canon = x.sx(true);
+    bare_entry_case::<T>(name, ver, &x, &mut out);
     let mut stat = |out: &mut Vec<String>, k: String| out.push(format!("#stat {} 1", k));
     for kind in Kind::all() {
         // fault-free run over the recording writer
